@@ -267,6 +267,8 @@ where
   repeatStr (s : String) (n : N) : Res N :=
     let k := NumOps.truncI64 n
     if k < 0 then some [.val .null .off]
+    -- an empty string repeated any number of times is empty (never build the list of copies)
+    else if s.isEmpty then some [.val (.str "") .off]
     else if k.toNat * s.utf8ByteSize > 2000000 then none
     else some [.val (.str (String.join (List.replicate k.toNat s))) .off]
   splitStr (s sep : String) : List String :=
